@@ -571,6 +571,9 @@ impl Prop for C20Prop {
         let perr = "echo one\necho \"abc\n";
         let mut out = vec![];
         out.push(case("lowertab".to_string(), vec!["unicode-lower-table"], true));
+        for t in ["exit_on_error true\nx = trigger_error boom\necho AFTER\nexit\n", "echo start\nset_exit_on_error yes\nassert_error boom\necho AFTER\n", "exit_on_error true\necho fine\ny = array_length boom-nope\necho AFTER\nexit\n"] {
+            out.push(case(format!("replfatal {}", enc_str(t)), vec!["form:repl-lines", "fatal-errors"], true));
+        }
         // what the script sees of the PROCESS must be what it sees under the library: size of the
         // environment, a variable the executable might set for itself, working directory
         let envs = "m = env_to_map\nn = map_size ${m}\necho env-size ${n}\nrelease ${m}\nf = get_env DUCKSCRIPT_SCRIPT_FILE\necho ${f}\npwd\n";
@@ -769,6 +772,12 @@ impl Prop for C20Prop {
             "repl" => run_repl_case(&dec_str(t[1]).expect("text")),
             "lintinc" => run_lint_include_case(&dec_str(t[1]).expect("main"), &dec_str(t[2]).expect("inc")),
             "clififo" => run_fifo_case(&dec_str(t[1]).expect("content")),
+            "replfatal" => {
+                // the interactive route with FATAL errors (`exit_on_error true`): a command error ends
+                // the session with a failure status, the lines after it are not run
+                let obs = run_duck(&[], Some(&dec_str(t[1]).expect("text")));
+                if !obs.timed_out && obs.status.is_some() && obs.status != Some(0) && obs.stdout.contains("boom") && !obs.stdout.contains("AFTER") { "replfatal-ok".to_string() } else { nomatch(&obs) }
+            }
             _ => "?".to_string(),
         }
     }
